@@ -23,7 +23,9 @@ import krun   # noqa: E402
 VERIF = os.path.abspath(os.path.join(os.path.dirname(__file__), ".."))
 
 COMMON_ASSUMPTIONS = [
-    "Verus 0.2026.09.13 / Z3, Kani 0.68 / CBMC 6.11 / kissat and rustc are correct",
+    "Verus 0.2026.09.13 / Z3, Kani 0.68 / CBMC 6.11 / kissat and rustc are correct (one wrong SUCCESSFUL of Kani/CBMC was observed and is "
+    "avoided: copy_from_slice of symbolic length inside a coroutine loop, findings/tool_kani_async_memcpy.rs; the one harness that drives "
+    "a coroutine, range_write, now uses constant lengths)",
     "machine integers are modelled exactly: Verus checks overflow at the Rust type's width, Kani is bit-precise (no mathematical-integer shortcut for executable code)",
     "the Verus text is the /repo text: items are copied verbatim on every run and only the logged rewrite rules (DESIGN 2.1) are applied; "
     "logging statements are dropped (their arithmetic arguments are re-emitted), debug_assert!/assert! become static obligations",
